@@ -614,7 +614,7 @@ func (fc *FnCtx) evalSliceExpr(st *State, x *ast.SliceExpr) Val {
 		}
 		fc.assert(st, and(fc.leIdx(zero, lo), fc.leIdx(lo, hi), fc.leIdx(hi, mx)), "bounds", "slice bounds 0 <= lo <= hi <= cap", x.Pos())
 		t2 := app("mk-slice", app("s-arr", base.T), fc.addIdx(app("s-off", base.T), lo), fc.subIdx(hi, lo), fc.subIdx(mx, lo))
-		_ = t
+		fc.viewShift(st, base, lo, t.Elem())
 		return Val{T: fc.define("slice", "Slice", t2), Ty: fc.typeOf(x)}
 	case *types.Basic: // string
 		hi := app("gs.len", base.T)
@@ -877,4 +877,28 @@ func (fc *FnCtx) hasGhostDefaults(t types.Type) bool {
 		}
 	}
 	return false
+}
+
+// viewShift: with `index elt`, reading element i of s[lo:...] is reading element i+lo of s. The two are different
+// view terms (E-matching is syntactic), so for a literal non-zero lo the identity is stated for exactly this
+// offset term: elt(c, off(s)+lo, i) == elt(c, off(s), i+lo) for every content c and index i. A tautology by the
+// definition of elt; it lets facts stated over s fire for reads through the sub-slice.
+func (fc *FnCtx) viewShift(st *State, base Val, lo string, elem types.Type) {
+	if fc.cs == nil || !fc.cs.IndexElt || st == nil {
+		return
+	}
+	n, ok := new(big.Int).SetString(lo, 10)
+	if !ok || n.Sign() == 0 {
+		return
+	}
+	off := app("s-off", base.T)
+	key := "viewshift$" + off + "$" + lo
+	if fc.declared[key] {
+		return
+	}
+	fc.declared[key] = true
+	fn := fc.eltFn(elem)
+	I := fc.I()
+	fc.assume(st, fmt.Sprintf("(forall ((c (Array %s %s)) (i %s)) (! (= (%s c %s i) (%s c %s %s)) :pattern ((%s c %s i))))",
+		I, fc.sortOf(elem), I, fn, fc.addIdx(off, lo), fn, off, fc.addIdx("i", lo), fn, fc.addIdx(off, lo)))
 }
